@@ -8,7 +8,9 @@ from harness.props import creation as cr
 
 URLS = ["http://t.example/announce", "udp://tracker.example:6969", "https://a.b/c?d=e&f=g",
         "http://x.y/a b", "http://ü.example/é", "http://h/%41+%2B#frag", "wss://t/~u=1",
-        "http://tr/𝄞", "ftp://ftp.example.site/content", "http://w/one"]
+        "http://tr/𝄞", "ftp://ftp.example.site/content", "http://w/one",
+        # URLs a "cleaning" helper would re-spell (capitalised scheme, bare ? or #, a tab)
+        "HTTP://Tracker.Example/Announce", "http://t.example/a?", "http://t.example/a#", "http://t.example/a\tb"]
 WORDS = ["hello", "a comment with spaces", "x=y&z", "100%", "émoji 😀", "#tag", "plus+plus",
          "src", "PTP", "tracker-x", "~", "q?", " padded ", "  ", "tail ", "\tt"]
 
